@@ -80,7 +80,7 @@ def _var_role(ctx, t, node):
 
 def rule_tpl_hdr(ctx):
     """TPL-HDR: in every generated `impl` header the type's generic arguments go on the type and on nothing else: `impl <ImplGenerics> [Trait for] <ident> <TypeGenerics> <where-clause>`; a TypeGenerics interpolation anywhere directly follows the identifier of the type it belongs to."""
-    templates = T.all_templates(ctx.files)
+    templates = T.all_templates(ctx.files, composed=True)
     headers = 0
     tg_total = 0
     for t in templates:
